@@ -23,6 +23,7 @@ from .npmodel import ArrObj, NumpyModel, _arr, _is_arr
 from .values import BuiltinV, ClassV, DictObj, ListObj, RecV, Ref, SV, TBool, TInt, TOpt, TReal, TStr, TStruct, Unsupported, str_lit
 
 _NP = NumpyModel()
+ALL_OVERRIDE = True
 RESULT_CLASSES = ("gemseo.algos.optimization_result.OptimizationResult",
                   "gemseo.algos.multiobjective_optimization_result.MultiObjectiveOptimizationResult")
 
@@ -168,7 +169,7 @@ class C04NumpyModels:
                 j = z3.Int("j!ax1")
                 ex.assumed.add("model: numpy.any(m, axis=1) of a rank-2 boolean array (row-wise disjunction)")
                 return _NP.new(ex, "b", (A.shape[0],), _NP.lam(1, lambda i: z3.Exists([j], z3.And(0 <= j, j < A.shape[1], A.at(i, j)))))
-        if fn == "all" and len(args) == 1 and not kwargs and _is_arr(ex, args[0]):
+        if fn == "all" and ALL_OVERRIDE and len(args) == 1 and not kwargs and _is_arr(ex, args[0]):
             A = _arr(ex, args[0])
             if A.rank == 1 and A.kind == "b":
                 return self._all_rank1(ex, A)
@@ -224,13 +225,20 @@ class _CtxNumpy(NumpyModel):
     def _index_array(self, ex, key, n, lineno):
         st = ex.st
         if isinstance(key, Ref) and isinstance(st.heap[key.id], ListObj) and st.heap[key.id].t == TInt:
+            # a list of ints as index: "every entry is in [0, n)" is a generated obligation (an IndexError otherwise; negative entries, which numpy
+            # accepts, are reported too - no caller of the verified functions builds such a list); the entries are then used as they are.
+            # The obligation names `list_entry_marker(j)` so that a contract can trigger its facts about the j-th entry on it.
             L = st.heap[key.id]
             j = z3.Int("j!ix")
-            if st.decide(z3.ForAll([j], z3.Implies(z3.And(0 <= j, j < L.n), z3.And(0 <= L.elems[j], L.elems[j] < n)), patterns=[L.elems[j]])):
-                return z3.simplify(L.n), (lambda t: L.elems[t])
+            inr = z3.And(0 <= L.elems[j], L.elems[j] < n)
+            mk = list_entry_marker(j)
+            ex.check(z3.ForAll([j], z3.Implies(z3.And(0 <= j, j < L.n), z3.And(z3.Implies(mk, inr), z3.Implies(z3.Not(mk), inr)))), "safety", "index-list-entries-in-range", lineno,
+                     aux=True, assume_after=False)
+            return z3.simplify(L.n), (lambda t: L.elems[t])
         return super()._index_array(ex, key, n, lineno)
 
 
+list_entry_marker = z3.Function("list_entry_marker", z3.IntSort(), z3.BoolSort())  # only a trigger
 _CNP = _CtxNumpy()
 
 
